@@ -5,6 +5,6 @@ cd "$(dirname "$0")"
 mkdir -p extracted
 cd extracted
 coqc -Q ../../coq GB -o ./Extract.vo ../../coq/Replay/Extract.v >/dev/null
-cp ../main.ml ../monitors.ml ../shared.ml ../smonitors.ml ../lease.ml ../eventer.ml ../rt.ml ../buffer.ml .
-ocamlfind ocamlopt -w -a -package str -linkpkg batcher_model.mli batcher_model.ml monitors.ml shared.ml smonitors.ml lease.ml eventer.ml rt.ml buffer.ml main.ml -o ../replay.exe 2>&1 | grep -v "^$" || true
+cp ../main.ml ../monitors.ml ../shared.ml ../smonitors.ml ../lease.ml ../eventer.ml ../rt.ml ../bufrep.ml .
+ocamlfind ocamlopt -w -a -package str -linkpkg batcher_model.mli batcher_model.ml monitors.ml shared.ml smonitors.ml lease.ml eventer.ml rt.ml bufrep.ml main.ml -o ../replay.exe 2>&1 | grep -v "^$" || true
 test -x ../replay.exe
